@@ -97,7 +97,7 @@ Definition spec_step (l : list K) (o : op) : list K * res ret :=
 
 (* the cheap view recorded after every operation *)
 Definition spec_obs (digests : bool) (l : list K) (r : res ret) : obs :=
-  mkObs r (length l) (if digests then Some (digest l, digest l) else None).
+  mkObs r (length l) (if digests then (let d := digest l in Some (d, d)) else None).
 
 (* The quantifier of the property: index arguments valid for a list of the
    same length, slice steps positive. *)
